@@ -70,6 +70,13 @@ def step (s : St) (j : Json) : Except String (St × Json × List Fired) := do
       for (v, k) in ilist.zip (List.range ilist.length) do
         if v.status ≠ 0 && feeds[k]? ≠ some v.sid then
           fired := fired ++ [{ name := "stored_price_at_the_position_of_another_signal", detail := mkObj [("position", jn k), ("signal", js v.sid)] }]
+      -- the whole stored list is the handler's: prices of other current signals are kept (miss detection falls back on their
+      -- block height), prices of signals that left the feed list are dropped
+      match r with
+      | .ok l =>
+        if l != ilist then
+          fired := fired ++ [{ name := "stored_price_list_differs_from_the_handlers", detail := mkObj [("stored", jl (ilist.map vpJson)), ("specified", jl (l.map vpJson))] }]
+      | .error _ => pure ()
     else
       -- a submission the handler's rules admit must not be rejected (grogu relies on them)
       match r with
